@@ -103,6 +103,7 @@ struct PhHarness {
 		if(got != in) fail("contents-mismatch", "drained element set differs from reference (lost or extra element)");
 		if(res) res->outcomes.insert("size=" + std::to_string(__builtin_popcount(in)));
 	}
+	void final_check() {}
 	void canon(std::string &out) { out.append((const char *)&w, sizeof w); out.append((const char *)&in, 4); }
 	void save(std::string &b) { b.clear(); canon(b); }
 	void load(const std::string &b) { memcpy(&w, b.data(), sizeof w); memcpy(&in, b.data() + sizeof w, 4); }
